@@ -211,6 +211,20 @@ static const char *ALG_VARIANTS[] = {
 	"rs256", "es256", "eddsa", "EDDSA",  "EdDsa", "es256k", "HS257", "",     "RS",    "HS2566", "HS25",  "ps256",
 	"ES256k", "none ", "nonE",  "HS256\tx"};
 static const int N_ALG_VARIANTS = (int)ARRAY_LEN(ALG_VARIANTS);
+// beyond the table: a known name followed by 256 or 512 more characters (a length difference an 8-bit
+// accumulator loses), and names with printf conversions (the name ends up in error messages)
+static const int N_ALG_VARIANTS_EXT = N_ALG_VARIANTS + 30 + 4;
+static std::string alg_variant(uint64_t sel)
+{
+	sel %= (uint64_t)N_ALG_VARIANTS_EXT;
+	if (sel < (uint64_t)N_ALG_VARIANTS)
+		return ALG_VARIANTS[sel];
+	sel -= (uint64_t)N_ALG_VARIANTS;
+	if (sel < 30)
+		return std::string(ALG_VARIANTS[sel % 15]) + std::string(256 * (1 + sel / 15), sel % 2 ? 'x' : ' ');
+	static const char *fmt[] = {"%s%s%s%s%n", "HS256%n", "none%s", "%999999d%n"};
+	return fmt[sel - 30];
+}
 
 static json_t *decode_json_seg(const std::string &seg)
 {
@@ -357,7 +371,7 @@ std::string apply_mutation(const Step &m, std::string &tok, MutCtx &mc, bool &de
 				json_decref(h);
 			h = json_object();
 		}
-		std::string algv = ALG_VARIANTS[(uint64_t)m.I("alg") % N_ALG_VARIANTS];
+		std::string algv = alg_variant((uint64_t)m.I("alg"));
 		switch (kind) {
 		case 0:
 			json_object_set_new(h, "alg", json_string(algv.c_str()));
@@ -439,6 +453,8 @@ std::string apply_mutation(const Step &m, std::string &tok, MutCtx &mc, bool &de
 	} else if (op == "resign") {
 		if (np >= 2 && mc.resign) {
 			std::string algv = m.has("alg") ? ALG_VARIANTS[(uint64_t)m.I("alg") % 15] : "";
+			if (((m.I("signer") % 9) + 9) % 9 == 8 && !mc.pin_name.empty())
+				algv = mc.pin_name; // labelled with the verifier's pin, signed as the key's own family signs
 			if (!algv.empty()) {
 				json_t *h = decode_json_seg(parts[0]);
 				if (!h || !json_is_object(h)) {
@@ -467,15 +483,16 @@ std::string apply_mutation(const Step &m, std::string &tok, MutCtx &mc, bool &de
 			desc += strf("(alg=%s,signer=%lld)", algv.c_str(), (long long)m.I("signer"));
 		}
 	} else if (op == "none") {
-		int v = (int)m.I("variant") % 6;
-		static const char *names[] = {"none", "None", "NONE", "none", "nOnE", "none"};
+		int v = (int)m.I("variant") % 10;
+		static const std::string names[] = {"none", "None", "NONE", "none", "nOnE", "none", "none" + std::string(256, 'x'), "none" + std::string(512, ' '),
+						     "none%s%n", "none" + std::string(65536, 'e')};
 		json_t *h = decode_json_seg(parts[0]);
 		if (!h || !json_is_object(h)) {
 			if (h)
 				json_decref(h);
 			h = json_object();
 		}
-		json_object_set_new(h, "alg", json_string(names[v]));
+		json_object_set_new(h, "alg", json_string(names[v].c_str()));
 		if (v == 5)
 			json_object_del(h, "typ");
 		parts[0] = encode_json_seg(h, false);
@@ -484,11 +501,45 @@ std::string apply_mutation(const Step &m, std::string &tok, MutCtx &mc, bool &de
 		if (v != 3)
 			parts[2].clear();
 		destroys = true;
-		desc += strf("(%s%s)", names[v], v == 3 ? ",sig-kept" : "");
+		desc += strf("(%s%s)", v >= 6 ? strf("none+%zu", names[v].size() - 4).c_str() : names[v].c_str(), v == 3 ? ",sig-kept" : "");
 	} else if (op == "stripsig") {
 		parts.resize(3);
 		parts[2].clear();
 		destroys = true;
+	} else if (op == "sigfill") {
+		// a signature of exactly the delivered length whose octets are extreme values: the longest encodings a
+		// provider may have to build from it (DER integers with a leading zero octet, values above the group order)
+		if (np >= 3) {
+			std::string sig;
+			if (b64_decode_lenient(parts[2], sig) && !sig.empty()) {
+				size_t w = sig.size() / 2;
+				switch ((int)m.I("kind") % 6) {
+				case 0:
+					sig.assign(sig.size(), (char)0xff);
+					break;
+				case 1:
+					sig.assign(sig.size(), (char)0x80);
+					break;
+				case 2:
+					sig.assign(sig.size(), (char)0x00);
+					break;
+				case 3:
+					sig[0] = (char)(sig[0] | 0x80);
+					sig[w] = (char)(sig[w] | 0x80);
+					break;
+				case 4:
+					sig.assign(sig.size(), (char)0x00);
+					sig[sig.size() - 1] = 1;
+					sig[w ? w - 1 : 0] = 1;
+					break;
+				default:
+					sig.assign(sig.size(), (char)0x7f);
+				}
+				parts[2] = b64url_encode(sig);
+				destroys = true;
+				desc += strf("(%lld)", (long long)(m.I("kind") % 6));
+			}
+		}
 	} else if (op == "esframe") {
 		ERR_set_mark(); // harness use of OpenSSL leaves the thread's error queue as it found it
 		if (np >= 3) {
@@ -496,9 +547,16 @@ std::string apply_mutation(const Step &m, std::string &tok, MutCtx &mc, bool &de
 			if (b64_decode_lenient(parts[2], sig) && sig.size() >= 8 && sig.size() % 2 == 0) {
 				size_t w = sig.size() / 2;
 				std::string r = sig.substr(0, w), s = sig.substr(w);
-				int kind = (int)m.I("kind") % 4;
+				int kind = (int)m.I("kind") % 5;
 				std::string out;
-				if (kind == 0) {
+				if (kind == 4) {
+					// both halves with the top bit set: the longest DER encoding a signature of this width can have
+					out = sig;
+					out[0] = (char)(out[0] | 0x80);
+					out[w] = (char)(out[w] | 0x80);
+					if (m.I("n") % 3 == 0)
+						out = std::string(w, (char)0xff) + std::string(w, (char)0xff);
+				} else if (kind == 0) {
 					size_t extra = (size_t)(m.I("n") % 3 == 0 ? 16 : m.I("n") % 3 == 1 ? 17 : 1);
 					if (w == 32 && m.I("n") % 3 == 0)
 						extra = 16; // 64 -> 96: another legal ES width
@@ -561,7 +619,7 @@ Step gen_mutation(Rng &r, const std::string &bias)
 		{"trunc", 4, 1, 2, 6, 3},  {"extend", 4, 1, 1, 4, 2}, {"dots", 2, 1, 4, 5, 1},	   {"pad", 2, 1, 1, 3, 1},
 		{"alpha", 2, 0, 0, 2, 1},  {"trail", 3, 0, 0, 2, 1},  {"eqtail", 2, 0, 1, 3, 1},   {"splice", 6, 2, 1, 2, 3},
 		{"hdr", 4, 10, 5, 4, 3},   {"pay", 5, 1, 1, 3, 3},    {"resign", 8, 12, 3, 1, 4},  {"none", 3, 5, 10, 2, 2},
-		{"stripsig", 2, 2, 8, 2, 1}, {"esframe", 5, 1, 0, 1, 1},
+		{"stripsig", 2, 2, 8, 2, 1}, {"esframe", 5, 1, 0, 4, 1},  {"sigfill", 4, 1, 0, 9, 2},
 	};
 	int total = 0;
 	auto wt = [&](const W &w) { return bias == "C02" ? w.c02 : bias == "C03" ? w.c03 : bias == "C06" ? w.c06 : bias == "C12" ? w.c12 : w.c01; };
@@ -612,7 +670,7 @@ Step gen_mutation(Rng &r, const std::string &bias)
 		m.set("from", (int64_t)r.below(64));
 	} else if (o == "hdr") {
 		m.set("kind", bias == "C02" ? (int64_t)r.pick(std::vector<int>{0, 0, 0, 0, 1, 2, 2, 6, 7}) : r.range(0, 7));
-		m.set("alg", (int64_t)r.below((uint64_t)N_ALG_VARIANTS));
+		m.set("alg", (int64_t)(r.chance(1, 12) ? N_ALG_VARIANTS + r.below(34) : r.below((uint64_t)N_ALG_VARIANTS)));
 		m.set("pos", (int64_t)r.below(100000));
 	} else if (o == "pay") {
 		m.set("kind", r.range(0, 4));
@@ -620,12 +678,14 @@ Step gen_mutation(Rng &r, const std::string &bias)
 	} else if (o == "resign") {
 		if (r.chance(3, 4))
 			m.set("alg", r.range(1, 14));
-		m.set("signer", r.range(0, 7));
+		m.set("signer", bias == "C02" && r.chance(1, 4) ? 8 : r.range(0, 8));
 		m.set("other", (int64_t)r.below(16));
 	} else if (o == "none")
-		m.set("variant", r.range(0, 5));
+		m.set("variant", r.chance(1, 4) ? r.range(6, 9) : r.range(0, 5));
+	else if (o == "sigfill")
+		m.set("kind", r.range(0, 5));
 	else if (o == "esframe") {
-		m.set("kind", r.range(0, 3));
+		m.set("kind", r.range(0, 4));
 		m.set("n", r.range(0, 2));
 	}
 	return m;
